@@ -5,7 +5,15 @@ Translator plugin for property C01: the tables the burst model depends on.
   for "no pattern matched" and is not a pattern);
 * the classification of each pattern by `Burst.__init__` (voice superframe start / data sync),
   obtained by CONSTRUCTING a burst around the pattern and reading the flags the constructor sets;
-* the `DataTypes` member values by name and `RateXData.get_data_type()`.
+* the `DataTypes` member values by name and `RateXData.get_data_type()`;
+* structured resolution probes: how `Burst.__init__` classifies the 48 centre bits that lie at minimal
+  Hamming distance from each pattern S — S itself, its 48 single-bit neighbours, for every valid EMB
+  word E (all 128 (cc, PI, LCSS), built by `EmbeddedSignalling`) the centre E[0:8] ++ S[8:40] ++ E[8:16]
+  (the voice-burst-with-EMB centre nearest to S), and for the EMB words nearest to S's outer bits the
+  32 single-bit neighbours of S[8:40] in the embedded bits.  Obtained by CONSTRUCTING a burst around
+  the centre and reading `sync_or_embedded_signalling`; `Props/C01.resolve_probes` states that the
+  model's `Sync.resolve` decides every probe the same way, so a changed lookup (tolerant / masked /
+  prefix compare) breaks that obligation and the broken entries name the failing voice bursts.
 """
 from bitarray import bitarray
 from bitarray.util import int2ba
@@ -50,6 +58,26 @@ def gen_burst() -> str:
         "/-- patterns for which `Burst.__init__` sets `is_data_or_control` whatever burst type is passed -/\n"
         f"def dataSyncs : List Nat := {lnats(data, per_line=4)}\n"  # noqa: F821
     )
+    to_pattern, to_embedded = resolve_probes(pats)
+    # (one definition per chunk of 96: a single long literal exceeds Lean's recursion depth)
+    pchunks = [to_pattern[i : i + 96] for i in range(0, max(1, len(to_pattern)), 96)]
+    for k, ch in enumerate(pchunks):
+        out.append(f"def resolvedToPattern{k} : List (Nat × Nat) := [\n    " + ",\n    ".join(f"({c}, {v})" for c, v in ch) + "]\n")
+    out.append(
+        "/-- structured probe centres `Burst.__init__` resolves to a SYNC pattern: (48-bit centre, pattern value) -/\n"
+        "def resolvedToPattern : List (Nat × Nat) := List.flatten ["
+        + ", ".join(f"resolvedToPattern{k}" for k in range(len(pchunks)))
+        + "]\n"
+    )
+    echunks = [to_embedded[i : i + 96] for i in range(0, len(to_embedded), 96)]
+    for k, ch in enumerate(echunks):
+        out.append(f"def resolvedToEmbedded{k} : List Nat := {lnats(ch, per_line=6)}\n")  # noqa: F821
+    out.append(
+        "/-- structured probe centres `Burst.__init__` resolves to `EmbeddedSignalling` (no pattern) -/\n"
+        "def resolvedToEmbedded : List Nat := List.flatten ["
+        + ", ".join(f"resolvedToEmbedded{k}" for k in range(len(echunks)))
+        + "]\n"
+    )
     for m in DataTypes:
         out.append(f"def dt{m.name} : Nat := {int(m.value)}")
     out.append("")
@@ -58,3 +86,48 @@ def gen_burst() -> str:
     out.append(f"def dtOfRate1 : Nat := {int(Rate1Data.get_data_type().value)}")
     out.append("\nend Dmr.Gen.Burst\n")
     return "\n".join(out)
+
+
+def probe_centres(pats):
+    """the structured 48-bit centres (see the module docstring), in a fixed order, without duplicates"""
+    from bitarray.util import ba2int
+    from okdmr.dmrlib.etsi.layer2.pdu.embedded_signalling import EmbeddedSignalling
+
+    embs = [
+        EmbeddedSignalling(colour_code=cc, preemption_and_power_control_indicator=pi, link_control_start_stop=lcss).as_bits()
+        for cc in range(16) for pi in range(2) for lcss in range(4)
+    ]
+    out = []
+    for _n, v in pats:
+        s = int2ba(v, length=48)
+        outer = s[:8] + s[40:]
+        out.append(v)
+        out += [v ^ (1 << i) for i in range(48)]
+        out += [ba2int(e[:8] + s[8:40] + e[8:]) for e in embs]
+        dmin = min((e ^ outer).count() for e in embs)
+        for e in embs:
+            if (e ^ outer).count() == dmin:
+                for i in range(32):
+                    x = s[8:40]
+                    x.invert(i)
+                    out.append(ba2int(e[:8] + x + e[8:]))
+    return list(dict.fromkeys(out))
+
+
+def resolve_probes(pats):
+    from okdmr.dmrlib.etsi.layer2.burst import Burst
+    from okdmr.dmrlib.etsi.layer2.elements.burst_types import BurstTypes
+    from okdmr.dmrlib.etsi.layer2.elements.sync_patterns import SyncPatterns
+
+    to_pattern, to_embedded = [], []
+    for c in probe_centres(pats):
+        try:
+            bits = bitarray([0] * 108) + int2ba(c, length=48) + bitarray([0] * 108)
+            r = Burst(full_bits=bits, burst_type=BurstTypes.Vocoder).sync_or_embedded_signalling
+        except Exception:  # noqa  (the centre lookup itself, should the constructor refuse the burst)
+            r = SyncPatterns.resolve_bytes(c.to_bytes(6, "big"))
+        if int(r.value) >= 0:
+            to_pattern.append((c, int(r.value)))
+        else:
+            to_embedded.append(c)
+    return to_pattern, to_embedded
